@@ -8,8 +8,8 @@
 EXTENDS T2J, Cut, TLC, Json, FiniteSets
 
 CONSTANTS EmitCases, Full
-VARIABLES pres, opt
-vars == <<pres, opt>>
+VARIABLES pres, opt, sub
+vars == <<pres, opt, sub>>
 
 I32T == Ty(T_I32)
 D5 == [t |-> T_I32, b |-> <<0, 0, 0, 5>>]
@@ -33,23 +33,29 @@ Opts == {[wreq |-> a, wdef |-> b, wopt |-> c, optbm |-> d, usedflt |-> e] : a \i
 \* null is only used for required fields: whether a null optional/default field is filled is not fixed by the property
 ReqIds == {QF[i].id : i \in {k \in 1..Len(QF) : QF[k].req = "req"}}
 Init == pres \in {p \in [VarIds -> {"absent", "null", "present"}] : \A id \in VarIds : p[id] = "null" => id \in ReqIds} /\ opt \in Opts
+        /\ sub \in {"full", "empty", "elems"}     \* the nested struct carries its required field | is present but empty | also as list elements
 Next == UNCHANGED vars
 Spec == Init /\ [][Next]_vars
 
 Seven == Scalar(T_I32, <<0, 0, 0, 7>>)
-PresOf(id) == IF id \in VarIds THEN pres[id] ELSE IF id = 6 THEN "present" ELSE IF id \in {300} THEN "present" ELSE "absent"
+PresOf(id) == IF id \in VarIds THEN pres[id] ELSE IF id = 6 THEN "present" ELSE IF id \in {300} THEN "present" ELSE IF id = 301 /\ sub = "elems" THEN "present" ELSE "absent"
 \* the JSON document: members in declaration order; the nested struct carries its required field only
-SubJ == JObj(<<JMem("str", <<97>>, JX("int", <<0, 0, 0, 0, 0, 0, 0, 1>>))>>)
+SubFullJ == JObj(<<JMem("str", <<97>>, JX("int", <<0, 0, 0, 0, 0, 0, 0, 1>>))>>)
+SubJ == IF sub = "empty" THEN JObj(<<>>) ELSE SubFullJ
+\* list elements: a complete struct followed by an empty one
+SubsJ == JArr(<<SubFullJ, JObj(<<>>)>>)
 Members == SelectSeq([i \in 1..Len(QF) |->
                         [p |-> PresOf(QF[i].id),
                          m |-> JMem("str", QF[i].key,
                                     IF PresOf(QF[i].id) = "null" THEN JX("null", <<>>)
-                                    ELSE IF QF[i].id = 300 THEN SubJ ELSE JX("int", <<0, 0, 0, 0, 0, 0, 0, 7>>))]],
+                                    ELSE IF QF[i].id = 300 THEN SubJ ELSE IF QF[i].id = 301 THEN SubsJ ELSE JX("int", <<0, 0, 0, 0, 0, 0, 0, 7>>))]],
                      LAMBDA x : x.p # "absent")
 DocJ == JObj([i \in 1..Len(Members) |-> Members[i].m])
 \* the Thrift message with the same present fields (null = absent on the wire)
-SubV == Struct(<<[id |-> 1, v |-> Scalar(T_I32, <<0, 0, 0, 1>>)]>>)
-PresentFs == SelectSeq([i \in 1..Len(QF) |-> [id |-> QF[i].id, v |-> IF QF[i].id = 300 THEN SubV ELSE Seven]], LAMBDA f : PresOf(f.id) = "present")
+SubFullV == Struct(<<[id |-> 1, v |-> Scalar(T_I32, <<0, 0, 0, 1>>)]>>)
+SubV == IF sub = "empty" THEN Struct(<<>>) ELSE SubFullV
+SubsV == Cont(T_LIST, T_STRUCT, <<SubFullV, Struct(<<>>)>>)
+PresentFs == SelectSeq([i \in 1..Len(QF) |-> [id |-> QF[i].id, v |-> IF QF[i].id = 300 THEN SubV ELSE IF QF[i].id = 301 THEN SubsV ELSE Seven]], LAMBDA f : PresOf(f.id) = "present")
 Msg == Struct(PresentFs)
 
 JO == [s2i |-> FALSE, nob64 |-> FALSE, disallow |-> FALSE, wreq |-> opt.wreq, wdef |-> opt.wdef, wopt |-> opt.wopt, optbm |-> opt.optbm, usedflt |-> opt.usedflt]
@@ -58,12 +64,13 @@ RJ == J2TV(XD(DocJ), TyStruct("Q"), Defs(opt.usedflt), JO)
 RT == T2JV(Msg, TyStruct("Q"), Defs(opt.usedflt), TO)
 
 \* ---- properties of the table ----
-MissingReq == \E i \in 1..Len(QF) : QF[i].req = "req" /\ PresOf(QF[i].id) # "present"
+\* a required field is missing at the root, or inside a nested struct value (the field of type Sub, or an element of the list)
+MissingReq == (\E i \in 1..Len(QF) : QF[i].req = "req" /\ PresOf(QF[i].id) # "present") \/ sub \in {"empty", "elems"}
 ErrIffMissingRequired == /\ (RJ.st = "err") <=> (MissingReq /\ ~opt.wreq)
                          /\ (~RT.ok) <=> (MissingReq /\ ~opt.wreq)
 \* no option alters or drops a field that is present in the input
 PresentKept == RJ.st = "ok" => /\ RJ.v.np = Len(PresentFs)
-                                /\ \A i \in 1..Len(PresentFs) : RJ.v.f[i].id = PresentFs[i].id /\ (PresentFs[i].id # 300 => Plain(RJ.v.f[i].v) = PresentFs[i].v)
+                                /\ \A i \in 1..Len(PresentFs) : RJ.v.f[i].id = PresentFs[i].id /\ (PresentFs[i].id \notin {300, 301} => Plain(RJ.v.f[i].v) = PresentFs[i].v)
 \* JSON->Thrift and Thrift->JSON fill exactly the same set of absent fields
 SameFills == (RJ.st = "ok" /\ RT.ok) =>
                {RJ.v.f[i].id : i \in (RJ.v.np + 1)..Len(RJ.v.f)} = {QF[k].id : k \in {k \in 1..Len(QF) : \E j \in (RT.j.np + 1)..Len(RT.j.e) : RT.j.e[j].n = QF[k].key}}
